@@ -1,0 +1,367 @@
+//! Verification harness (C11, see /verif): drives the real submission-state types
+//! (`SubmissionStateAtStartup::new_from_path`, `FreshSubmission::into_started`,
+//! `StartedSubmission::into_prepared`, `PreparedSubmission::into_started` / `revert`,
+//! `last_completed_sequencer_height`) on a temp directory, with simulated crashes: between two
+//! calls, in the middle of the temp-file write, and between the temp-file write and the rename
+//! (the two halves of `State::write` are executed the way `write` does, stopping after the
+//! first).
+//!
+//! Script (`$VERIF_IN`), one op per line; one observation line per op goes to `$VERIF_OUT`:
+//!
+//! ```text
+//! case <name>                      fresh temp dir, no state file, process down
+//! raw <kind> [args]                something else (re)writes the state file: fresh | started c l |
+//!                                  prepared h c l tx | garbage | empty | badstate | nohash |
+//!                                  bigheight | missing
+//! startup                          new_from_path
+//! fresh_into_started               FreshSubmission::into_started
+//! prepare <h> <tx> <k>             StartedSubmission::into_prepared (on a clone, as try_submit does)
+//! confirm <c> <k>                  PreparedSubmission::into_started
+//! revert <k>                       PreparedSubmission::revert
+//! crash                            drop the in-memory state
+//!   k = none | torn | before | after   (crash point relative to the state-file write)
+//! ```
+//!
+//! Observation: `<op> res=ok|err|na mem=.. main=.. temp=.. renamed=true|false|- last=..`
+//! (`renamed`: the state file is a different inode than before, i.e. it was replaced by a
+//! rename and not rewritten in place).
+//!
+//! Test-only, add-only; compiled only with `--features verif`.
+use std::{
+    fmt::Write as _,
+    os::unix::fs::MetadataExt as _,
+    path::{
+        Path,
+        PathBuf,
+    },
+};
+
+use futures::FutureExt as _;
+
+use super::{
+    BlobTxHash,
+    CompletedSubmission,
+    FreshSubmission,
+    PreparedSubmission,
+    SequencerHeight,
+    StartedSubmission,
+    State,
+    SubmissionStateAtStartup,
+};
+
+enum Mem {
+    Down,
+    Fresh(FreshSubmission),
+    Started(StartedSubmission),
+    Prepared(PreparedSubmission),
+}
+
+fn tx_hash(tx: u64) -> BlobTxHash {
+    let mut raw = [0u8; 32];
+    raw[..8].copy_from_slice(&tx.to_be_bytes());
+    BlobTxHash::from_raw(raw)
+}
+
+fn tx_of_hex(hex: &str) -> Option<u64> {
+    if hex.len() != 64 || !hex[16..].bytes().all(|b| b == b'0') {
+        return None;
+    }
+    u64::from_str_radix(&hex[..16], 16).ok()
+}
+
+/// Describes the content of a file, parsed independently of `State::read`.
+fn describe(path: &Path) -> String {
+    let Ok(text) = std::fs::read_to_string(path) else {
+        return if path.exists() { "garbage" } else { "missing" }.to_string();
+    };
+    let Ok(value) = serde_json::from_str::<serde_json::Value>(&text) else {
+        return "garbage".to_string();
+    };
+    let last = |v: &serde_json::Value| -> Option<(u64, u64)> {
+        let last = v.get("last_submission")?;
+        Some((
+            last.get("celestia_height")?.as_u64()?,
+            last.get("sequencer_height")?.as_u64()?,
+        ))
+    };
+    let described = match value.get("state").and_then(serde_json::Value::as_str) {
+        Some("fresh") => Some("fresh".to_string()),
+        Some("started") => last(&value)
+            .filter(|(_, l)| i64::try_from(*l).is_ok())
+            .map(|(c, l)| format!("started:{c}:{l}")),
+        Some("prepared") => (|| {
+            let (c, l) = last(&value)?;
+            let h = value.get("sequencer_height")?.as_u64()?;
+            // a sequencer height is a tendermint height: at most i64::MAX
+            i64::try_from(h).ok()?;
+            i64::try_from(l).ok()?;
+            let tx = tx_of_hex(value.get("blob_tx_hash")?.as_str()?)?;
+            value.get("at")?.as_str()?;
+            Some(format!("prepared:{h}:{c}:{l}:{tx}"))
+        })(),
+        _ => None,
+    };
+    described.unwrap_or_else(|| "garbage".to_string())
+}
+
+fn describe_mem(mem: &Mem) -> String {
+    match mem {
+        Mem::Down => "none".to_string(),
+        Mem::Fresh(_) => "fresh".to_string(),
+        Mem::Started(s) => format!(
+            "started:{}:{}",
+            s.last_submission.celestia_height,
+            s.last_submission.sequencer_height.value()
+        ),
+        Mem::Prepared(p) => format!(
+            "prepared:{}:{}:{}:{}",
+            p.sequencer_height.value(),
+            p.last_submission.celestia_height,
+            p.last_submission.sequencer_height.value(),
+            tx_of_hex(&p.blob_tx_hash.to_hex()).map_or("?".to_string(), |tx| tx.to_string()),
+        ),
+    }
+}
+
+fn inode(path: &Path) -> Option<u64> {
+    std::fs::metadata(path).ok().map(|m| m.ino())
+}
+
+/// The first half of `State::write` (json-encode, write the temp file), optionally torn.
+fn write_temp_half(state: &State, temp: &Path, torn: bool) {
+    let contents = serde_json::to_string_pretty(state).unwrap();
+    let bytes = contents.as_bytes();
+    let bytes = if torn { &bytes[..bytes.len() / 2] } else { bytes };
+    std::fs::write(temp, bytes).unwrap();
+}
+
+fn height(h: u64) -> SequencerHeight {
+    SequencerHeight::try_from(h).expect("script heights are below 2^63")
+}
+
+struct Case {
+    _dir: tempfile::TempDir,
+    main: PathBuf,
+    temp: PathBuf,
+    mem: Mem,
+}
+
+/// Runs one transition with the crash point `k`; `state` is what the transition writes and
+/// `real` performs the real call.
+async fn transition<F, T>(
+    case: &Case,
+    k: &str,
+    state: State,
+    real: F,
+) -> Option<Result<T, ()>>
+where
+    F: std::future::Future<Output = astria_eyre::eyre::Result<T>>,
+{
+    match k {
+        "none" | "after" => Some(real.await.map_err(|_| ())),
+        "torn" => {
+            write_temp_half(&state, &case.temp, true);
+            None
+        }
+        "before" => {
+            write_temp_half(&state, &case.temp, false);
+            None
+        }
+        other => panic!("unknown crash point {other}"),
+    }
+}
+
+async fn run_op(case: &mut Case, toks: &[&str]) -> String {
+    let before = inode(&case.main);
+    let mut wrote = false;
+    let res = match toks[0] {
+        "raw" => {
+            let text = match toks[1] {
+                "fresh" => Some(r#"{"state": "fresh"}"#.to_string()),
+                "started" => Some(format!(
+                    r#"{{"state":"started","last_submission":{{"celestia_height":{},"sequencer_height":{}}}}}"#,
+                    toks[2], toks[3]
+                )),
+                "prepared" | "nohash" | "bigheight" => {
+                    let (h, c, l, tx) = match toks[1] {
+                        "bigheight" => ("9223372036854775808", "1", "2", 5),
+                        "nohash" => ("7", "1", "2", 5),
+                        _ => (toks[2], toks[3], toks[4], toks[5].parse::<u64>().unwrap()),
+                    };
+                    let hash = if toks[1] == "nohash" {
+                        String::new()
+                    } else {
+                        format!(r#""blob_tx_hash":"{}","#, tx_hash(tx).to_hex())
+                    };
+                    Some(format!(
+                        r#"{{"state":"prepared","sequencer_height":{h},"last_submission":{{"celestia_height":{c},"sequencer_height":{l}}},{hash}"at":"2024-06-24T22:22:22.222222222Z"}}"#,
+                    ))
+                }
+                "garbage" => Some("{\"state\": \"prepa".to_string()),
+                "empty" => Some(String::new()),
+                "badstate" => Some(r#"{"state": "finished"}"#.to_string()),
+                "missing" => None,
+                other => panic!("unknown raw kind {other}"),
+            };
+            match text {
+                Some(text) => std::fs::write(&case.main, text).unwrap(),
+                None => {
+                    let _ = std::fs::remove_file(&case.main);
+                }
+            }
+            "ok"
+        }
+        "crash" => {
+            case.mem = Mem::Down;
+            "ok"
+        }
+        "startup" => match SubmissionStateAtStartup::new_from_path(&case.main).await {
+            Ok(state) => {
+                wrote = true;
+                case.mem = match state {
+                    SubmissionStateAtStartup::Fresh(s) => Mem::Fresh(s),
+                    SubmissionStateAtStartup::Started(s) => Mem::Started(s),
+                    SubmissionStateAtStartup::Prepared(s) => Mem::Prepared(s),
+                };
+                "ok"
+            }
+            Err(_) => {
+                case.mem = Mem::Down;
+                "err"
+            }
+        },
+        "fresh_into_started" => match std::mem::replace(&mut case.mem, Mem::Down) {
+            Mem::Fresh(fresh) => {
+                case.mem = Mem::Started(fresh.into_started());
+                "ok"
+            }
+            other => {
+                case.mem = other;
+                "na"
+            }
+        },
+        "prepare" => {
+            let (h, tx, k) = (toks[1].parse::<u64>().unwrap(), toks[2].parse().unwrap(), toks[3]);
+            if let Mem::Started(started) = &case.mem {
+                let started = started.clone();
+                // `into_prepared` refuses before writing anything; decide the refusal with the
+                // real call even when a crash is simulated
+                let refused = height(h) <= started.last_submission.sequencer_height;
+                let k = if refused { "none" } else { k };
+                let state = State::new_prepared(
+                    height(h),
+                    started.last_submission,
+                    tx_hash(tx),
+                    std::time::SystemTime::now(),
+                );
+                let real = started.into_prepared(height(h), tx_hash(tx));
+                match transition(case, k, state, real).await {
+                    Some(Ok(prepared)) => {
+                        wrote = true;
+                        case.mem = if k == "after" { Mem::Down } else { Mem::Prepared(prepared) };
+                        "ok"
+                    }
+                    Some(Err(())) => "err",
+                    None => {
+                        case.mem = Mem::Down;
+                        "ok"
+                    }
+                }
+            } else {
+                "na"
+            }
+        }
+        "confirm" | "revert" => {
+            let (c, k) = if toks[0] == "confirm" {
+                (toks[1].parse::<u64>().unwrap(), toks[2])
+            } else {
+                (0, toks[1])
+            };
+            match std::mem::replace(&mut case.mem, Mem::Down) {
+                Mem::Prepared(prepared) => {
+                    let last = if toks[0] == "confirm" {
+                        CompletedSubmission::new(c, prepared.sequencer_height)
+                    } else {
+                        prepared.last_submission
+                    };
+                    let state = State::new_started(last);
+                    let real = if toks[0] == "confirm" {
+                        prepared.into_started(c).boxed()
+                    } else {
+                        prepared.revert().boxed()
+                    };
+                    match transition(case, k, state, real).await {
+                        Some(Ok(started)) => {
+                            wrote = true;
+                            case.mem = if k == "after" { Mem::Down } else { Mem::Started(started) };
+                            "ok"
+                        }
+                        Some(Err(())) => "err",
+                        None => "ok",
+                    }
+                }
+                other => {
+                    case.mem = other;
+                    "na"
+                }
+            }
+        }
+        other => panic!("unknown op {other}"),
+    };
+    let renamed = if wrote {
+        (before != inode(&case.main)).to_string()
+    } else {
+        "-".to_string()
+    };
+    let last = match &case.mem {
+        Mem::Down => "-".to_string(),
+        Mem::Fresh(_) => "none".to_string(),
+        Mem::Started(s) => s.last_submission_sequencer_height().value().to_string(),
+        Mem::Prepared(p) => p.last_submission.sequencer_height.value().to_string(),
+    };
+    format!(
+        "{} res={res} mem={} main={} temp={} renamed={renamed} last={last}",
+        toks[0],
+        describe_mem(&case.mem),
+        describe(&case.main),
+        describe(&case.temp),
+    )
+}
+
+#[tokio::test]
+async fn drive() {
+    let Ok(input) = std::env::var("VERIF_IN") else {
+        return;
+    };
+    let script = std::fs::read_to_string(input).unwrap();
+    let mut out = String::new();
+    let mut case: Option<Case> = None;
+    for line in script.lines() {
+        let toks: Vec<&str> = line.split_whitespace().collect();
+        let Some(op) = toks.first() else {
+            continue;
+        };
+        if *op == "case" {
+            let dir = tempfile::tempdir().unwrap();
+            let main = dir.path().join("submission-state.json");
+            let temp = dir.path().join("submission-state.json.tmp");
+            case = Some(Case {
+                _dir: dir,
+                main,
+                temp,
+                mem: Mem::Down,
+            });
+            writeln!(out, "{line}").unwrap();
+            continue;
+        }
+        let case = case.as_mut().unwrap();
+        let result = std::panic::AssertUnwindSafe(run_op(case, &toks))
+            .catch_unwind()
+            .await;
+        match result {
+            Ok(line) => writeln!(out, "{line}").unwrap(),
+            Err(_) => writeln!(out, "{op} panic").unwrap(),
+        }
+    }
+    std::fs::write(std::env::var("VERIF_OUT").unwrap(), out).unwrap();
+}
